@@ -14,3 +14,6 @@ open Mud.C16
 #print axioms kinetic_from_momentum
 #print axioms Mud.StepThm.shRun_length
 #print axioms Mud.StepThm.shRun_clock
+#print axioms loopGo_final_indep_te
+#print axioms loopGo_last_is_final
+#print axioms simulate_final_indep_te
